@@ -14,7 +14,12 @@ def needs_rejection(ctx):
     spec = ctx.spec
     if any(r.is_complex(d["name"]) for d in spec["derived"] if d["name"] in r.C["design"]):
         return True
-    return any(c["kind"] not in ("exclude", "min") for c in spec["block"].get("constraints", []))
+    for c in spec["block"].get("constraints", []):
+        if c["kind"] not in ("exclude", "min"):
+            return True
+        if c["kind"] == "exclude" and c["factor"] in r.derived:
+            return True         # an excluded derived level outside the crossing is enforced by rejecting candidates
+    return False
 
 
 def judge(ctx):
